@@ -448,7 +448,7 @@ class Check:
         os.makedirs(EVID, exist_ok=True)
         with open(os.path.join(EVID, self.prop + ".json"), "w") as f:
             json.dump(ev, f, indent=1, default=str)
-        for key, what in self.known_hits:
+        for key, what in sorted(set(self.known_hits)):
             print("KNOWN-FINDING: property=%s %s" % (self.prop, what))
         for rel, found in self.violations:
             print("VIOLATION property=%s replay=%s%s" % (self.prop, rel, "" if found else " no-failing-input-found"))
